@@ -536,9 +536,22 @@ func (c *Ctx) bin(op Op, a, b *Term) *Term {
 		if b.IsConst() && w <= 64 && b.Val != 0 && b.Val&(b.Val-1) == 0 {
 			return c.bin(OLShr, a, c.Const(w, uint64(bits.TrailingZeros64(b.Val))))
 		}
+		// (zext a) / (zext b) = b == 0 ? all-ones : zext(a / b)
+		if w <= 64 {
+			if n := zextPair(a, b); n > 0 {
+				la, lb := c.lowPart(a, w-n), c.lowPart(b, w-n)
+				return c.Ite(c.Eq(lb, c.Const(w-n, 0)), c.Const(w, mask(w)), c.Zext(c.bin(OUDiv, la, lb), n))
+			}
+		}
 	case OURem:
 		if b.IsConst() && w <= 64 && b.Val != 0 && b.Val&(b.Val-1) == 0 {
 			return c.bin(OBAnd, a, c.Const(w, b.Val-1))
+		}
+		// (zext a) % (zext b) = zext(a % b), also for b = 0 (x % 0 = x at every width)
+		if w <= 64 {
+			if n := zextPair(a, b); n > 0 {
+				return c.Zext(c.bin(OURem, c.lowPart(a, w-n), c.lowPart(b, w-n)), n)
+			}
 		}
 	case OSDiv, OSRem:
 		// both operands known non-negative: same as the unsigned operation
